@@ -323,18 +323,28 @@ func runChainJob(r *Runner, j chainJob, idx int) {
 		in["st"] = nil
 	}
 	var implErr error
-	if j.purpose == "cs" {
-		implErr = nx509.ValidateCodeSigningCertChain(chain, st)
-	} else {
-		implErr = nx509.ValidateTimestampingCertChain(chain)
+	var panicked any
+	func() {
+		defer func() { panicked = recover() }()
+		if j.purpose == "cs" {
+			implErr = nx509.ValidateCodeSigningCertChain(chain, st)
+		} else {
+			implErr = nx509.ValidateTimestampingCertChain(chain)
+		}
+	}()
+	if j.purpose != "cs" {
 		in["st"] = nil
 	}
 	detail := ""
 	if implErr != nil {
 		detail = implErr.Error()
 	}
+	implOut := map[string]any{"ok": implErr == nil && panicked == nil}
+	if panicked != nil {
+		implOut["panic"] = fmt.Sprint(panicked)
+	}
 	c := &Case{ID: fmt.Sprintf("%s-%d", j.label, idx), K: "chain", In: in,
-		Impl:  map[string]any{"ok": implErr == nil},
+		Impl:  implOut,
 		Class: j.label, Replay: map[string]any{"chain_pem": pemChain(chain), "st": in["st"], "purpose": j.purpose, "impl_error": detail, "expected_by_catalogue": expectBenign}}
 	// catalogue expectation is a *generator self-check* (not an oracle): recorded for the distribution only
 	if j.stKind == "nil" || j.stKind == "" || j.stKind == "mid" {
